@@ -16,6 +16,16 @@ CLAIMED = {
              "(eager and lazy backends for the same tensor type) is only sampled by the correspondence.",
         technique="Lean 4 proof over hand-written model + regenerated obligations + differential correspondence",
         design="5 (C11)"),
+    "C14": dict(
+        text="Lean theorems about the update denotation (every assignment of the un-bracketed axes exactly once, add/subtract = target +/- sum of contributions and "
+             "order independent, set leaves one competing value, untouched elements unchanged, missing axes repeat, get-after-set) and about the lowering "
+             "(the _ravel multiplier kernel, mini-translated from the source on every run, computes the row-major address; np.put / ufunc.at realise the fold when "
+             "indices and updates are broadcast; obligation over the extracted registration flags) + correspondence of model and numpy primitives with the real code "
+             "+ nested-loop oracle search on real set_at/add_at/subtract_at/get_at calls.",
+        note="Trusted: Lean kernel, driver, AST extractor/mini-translator for classical_from_numpy.py and _ravel, numpy primitive semantics (conformance-tested each run), harness. "
+             "_join_exprs and the decomposer steps in front of the scatter are not modelled in Lean (the harness feeds the real order); coordinates are assumed in range.",
+        technique="Lean 4 proof over hand-written model + kernel translated from source + differential correspondence",
+        design="5 (C14)"),
 }
 
 ALL = [f"C{i:02d}" for i in range(1, 18)]
